@@ -272,7 +272,7 @@ Lemma Inv_start refresh expire retry mode P K0 es os ss o :
   Inv (start_world refresh expire retry mode P K0 es os ss o).
 Proof.
   intros Hr He HP HK Ho1 Ho2. unfold Inv, Tm, env_ok, no_data, start_world, init_sock.
-  cbn [sk pfx keys evs now retry_iv last_update req_sess resetting upd_st]. repeat split; auto; try lia. intros; discriminate.
+  cbn [sk pfx keys evs now retry_iv last_update req_sess resetting upd_st]. repeat split; auto; try lia.
 Qed.
 
 (* ---------- C07_last_update_tracks: the bookkeeping follows the history ---------- *)
@@ -294,4 +294,232 @@ Lemma purge_last w : let w1 := if expired w then purged w else w in
 Proof.
   cbv zeta. destruct (expired w) eqn:Ex; [right|left; reflexivity].
   apply expired_iff in Ex. split; [reflexivity|apply Ex].
+Qed.
+
+(* outside rtr_sync, last_update is only ever left alone or zeroed by the expiry check *)
+Definition LU (w w' : world) : Prop :=
+  last_update (sk w') = last_update (sk w) \/ (last_update (sk w') = 0 /\ last_update (sk w) <> 0).
+Lemma LU_refl w : LU w w. Proof. left; reflexivity. Qed.
+Lemma LU_trans a b c : LU a b -> LU b c -> LU a c.
+Proof. unfold LU. intros [H1|[H1 H1']] [H2|[H2 H2']]; try (left; congruence); right; split; congruence. Qed.
+Lemma K_LU a b : K a b -> LU a b. Proof. intros (_ & _ & H). left. exact H. Qed.
+Lemma relK_LU {A} (m : world -> res A) w : relK m w -> rel LU m w.
+Proof. unfold rel. destruct (m w); apply K_LU. Qed.
+Ltac lstep := rstep LU LU_refl LU_trans.
+Ltac llem := match goal with
+  | |- rel LU purge_outdated _ => unfold rel; rewrite purge_outdated_eq'; apply purge_last
+  | |- rel LU wait_for_sync _ => apply relK_LU, wait_for_sync_K
+  | |- rel LU _ _ => apply relK_LU; klem
+  end.
+Ltac lprim := unfold rel; unfold_prims; unfold LU; sk_simpl; auto.
+
+Theorem fsm_step_tracks fuel w : Inv w -> live w ->
+  hoareE (fsm_step fuel) w (fun _ w' => track w w') (track_interrupted w).
+Proof.
+  intros HI Hl. pose proof (live_not_shutdown w Hl) as Hns.
+  destruct (st (sk w) =? c_RTR_SYNC) eqn:Esync.
+  - (* the only place where last_update is set *)
+    apply Z.eqb_eq in Esync. unfold fsm_step. apply hoareE_get_sk. cbv zeta.
+    rewrite Esync. cbn [Z.eqb Pos.eqb].
+    eapply hoareE_bind2; [apply rtr_sync_inv_spec, HI| |]; cbv beta.
+    + intros w' [_ HL]. left. exact HL.
+    + intros r w1 (HI1 & HE1 & [(-> & HL & Hq)|(Hr & HL)]).
+      * cbn [Z.eqb]. unfold hoareE. rewrite change_state_eq'. left.
+        assert (Hst : (st (sk w1) =? c_RTR_ESTABLISHED) || (st (sk w1) =? c_RTR_SHUTDOWN) = false).
+        { destruct HE1 as [HE1|HE1]; [rewrite HE1, Esync; reflexivity|].
+          unfold err_b in HE1. repeat (apply orb_true_iff in HE1; destruct HE1 as [HE1|HE1]); apply Z.eqb_eq in HE1; rewrite HE1; reflexivity. }
+        unfold state_changed. rewrite Hst. cbn [sk with_sk with_out now st last_update req_sess upd_st]. auto.
+      * destruct (r =? 0) eqn:Er; [apply Z.eqb_eq in Er; contradiction|]. apply hoareE_ret.
+        right. left. split; [|exact HL]. intros [_ B].
+        destruct HE1 as [HE1|HE1]; [rewrite HE1, Esync in B; discriminate|]. rewrite B in HE1. discriminate.
+  - apply Z.eqb_neq in Esync.
+    assert (HLU : rel LU (fsm_step fuel) w).
+    { unfold fsm_step. repeat lstep; try llem; try (lprim; fail).
+      all: try (apply Z.eqb_eq in Heqb1; contradiction). }
+    unfold rel in HLU. unfold hoareE. destruct (fsm_step fuel w) as [a w'|e w'].
+    + destruct HLU as [H|[H1 H2]]; [right; left; split; [intros [A _]; contradiction|exact H]|right; right; auto].
+    + destruct HLU as [H|[H1 H2]]; [left; exact H|right; auto].
+Qed.
+
+(* ---------- the ghost: time of the last SYNC -> ESTABLISHED transition since the last stop (0 = none) ---------- *)
+Definition ghost_next (fuel : nat) (w : world) (g : Z) : Z :=
+  match fsm_step fuel w with
+  | Ok _ w1 => if (st (sk w) =? c_RTR_SYNC) && (st (sk w1) =? c_RTR_ESTABLISHED) then now w1 else g
+  | Exc XStop _ => 0
+  | Exc (XEnd _) _ => g
+  end.
+
+Fixpoint run_ghost (n fuel : nat) (w : world) (g : Z) : world * Z :=
+  match n with
+  | O => (w, g)
+  | S n' => let '(w', go) := fsm_iter fuel w in
+            let g' := ghost_next fuel w g in
+            if go then run_ghost n' fuel w' g' else (w', g')
+  end.
+
+Lemma run_ghost_fst n fuel : forall w g, fst (run_ghost n fuel w g) = run_fsm n fuel w.
+Proof.
+  induction n as [|n IH]; intros w g; [reflexivity|].
+  cbn [run_ghost]. rewrite run_fsm_iter. destruct (fsm_iter fuel w) as [w' [|]]; [apply IH|reflexivity].
+Qed.
+
+(* last_update is the ghost, or it is 0 (and then, by Inv, the socket holds nothing and requests a session) *)
+Definition tracks (w : world) (g : Z) : Prop := last_update (sk w) = g \/ last_update (sk w) = 0.
+
+Lemma live_iter fuel w : live w -> live (fst (fsm_iter fuel w)) \/ snd (fsm_iter fuel w) = false.
+Proof.
+  intros Hl. pose proof (fsm_step_F fuel w) as HF. unfold rel in HF. unfold fsm_iter.
+  destruct (fsm_step fuel w) as [a w'|[why|] w']; cbn [fst snd]; [left; apply HF, Hl|right; reflexivity|].
+  destruct (stop_restart_eq w') as (w2 & -> & Hs & _). left. cbn [fst]. unfold live. rewrite Hs. reflexivity.
+Qed.
+
+Theorem iter_tracks fuel w g : Inv w -> live w -> tracks w g ->
+  tracks (fst (fsm_iter fuel w)) (ghost_next fuel w g).
+Proof.
+  intros HI Hl Ht. pose proof (fsm_step_tracks fuel w HI Hl) as H. pose proof (fsm_step_Inv fuel w HI) as HI'.
+  unfold hoareE in H, HI'. unfold fsm_iter, ghost_next, tracks in *.
+  destruct (fsm_step fuel w) as [a w'|[why|] w']; cbn [fst].
+  - destruct H as [(A & B & C & _)|[(A & B)|(A & B & C)]].
+    + rewrite A, B. cbn. left. exact C.
+    + assert (Hc : (st (sk w) =? c_RTR_SYNC) && (st (sk w') =? c_RTR_ESTABLISHED) = false).
+      { apply andb_false_iff. destruct (st (sk w) =? c_RTR_SYNC) eqn:E1; [|auto]. right.
+        apply Z.eqb_eq in E1. apply Z.eqb_neq. intros E2. apply A. auto. }
+      rewrite Hc, B. exact Ht.
+    + right. exact B.
+  - destruct H as [H|(A & B & C)]; [rewrite H; exact Ht|right; exact B].
+  - destruct HI' as (Htm & HP & HK & _).
+    destruct (stop_restart w') as [[] w2|e w2] eqn:Es; cbn [fst].
+    + left. eapply Inv_stop_restart; eauto.
+    + rewrite stop_restart_eq' in Es. discriminate.
+Qed.
+
+Theorem run_tracks n fuel : forall w g, Inv w -> live w -> tracks w g ->
+  let '(w', g') := run_ghost n fuel w g in Inv w' /\ tracks w' g'.
+Proof.
+  induction n as [|n IH]; intros w g HI Hl Ht; [cbn; auto|].
+  cbn [run_ghost].
+  pose proof (iter_tracks fuel w g HI Hl Ht) as H1. pose proof (fsm_iter_Inv fuel w HI) as H2.
+  pose proof (live_iter fuel w Hl) as H3.
+  destruct (fsm_iter fuel w) as [w' go]. cbn [fst snd] in *.
+  destruct go; [|auto]. apply IH; auto. destruct H3 as [H3|H3]; [exact H3|discriminate].
+Qed.
+
+(* ---------- C07_expire: the expiry check at every (re)connect ---------- *)
+(* the world in which tr_open is called *)
+Definition at_open (w : world) : world :=
+  let w0 := with_sk w (upd_hasrecv (sk w) false) in if expired w0 then purged w0 else w0.
+
+(* what the CONNECTING state does after the check *)
+Definition connect_rest : world -> res unit :=
+  mdo ok <- tr_open;
+  if negb ok then change_state c_RTR_ERROR_TRANSPORT
+  else mdo s1 <- get_sk;
+       if req_sess s1 then change_state c_RTR_RESET
+       else mdo r <- send_serial_query;
+            if r =? 0 then change_state c_RTR_SYNC else change_state c_RTR_ERROR_FATAL.
+
+Theorem expire_at_connect fuel w : st (sk w) = c_RTR_CONNECTING ->
+  fsm_step fuel w = connect_rest (at_open w) /\
+  (expired w = true ->
+     no_data (at_open w) /\ req_sess (sk (at_open w)) = true /\ serial (sk (at_open w)) = 0 /\
+     last_update (sk (at_open w)) = 0 /\
+     pfx (at_open w) = oth_p (pfx w) /\ keys (at_open w) = oth_k (keys w) /\
+     out (at_open w) = rev (removal_callbacks w) ++ out w) /\
+  (expired w = false -> pfx (at_open w) = pfx w /\ keys (at_open w) = keys w /\ out (at_open w) = out w /\
+                        req_sess (sk (at_open w)) = req_sess (sk w)).
+Proof.
+  intros Hst. split.
+  - unfold fsm_step. unfold bind at 1, get_sk. cbv zeta. rewrite Hst. const_dec.
+    unfold bind at 1, set_sk. unfold bind at 1. rewrite purge_outdated_eq'. reflexivity.
+  - unfold at_open. set (w0 := with_sk w _).
+    assert (Hx : expired w0 = expired w) by reflexivity. rewrite Hx.
+    split; intros Ex; rewrite Ex.
+    + unfold purged, removed, removal_callbacks, no_data, with_sk. subst w0.
+      cbn [sk pfx keys out with_sk req_sess serial last_update upd_resetting upd_last upd_serial upd_req].
+      repeat split; auto using own_oth_p, own_oth_k.
+    + subst w0. cbn [pfx keys out sk with_sk req_sess upd_hasrecv]. auto.
+Qed.
+
+(* the same in terms of history: g is the time of the last successful synchronisation since the last stop *)
+Theorem expire_history w g : Inv w -> tracks w g ->
+  (g = 0 \/ now w - g > expire_iv (sk w)) ->
+  no_data (at_open w) /\ req_sess (sk (at_open w)) = true.
+Proof.
+  intros HI Ht Hg. unfold at_open. set (w0 := with_sk w _).
+  assert (Hx : expired w0 = expired w) by reflexivity. rewrite Hx.
+  assert (H0 : last_update (sk w) = 0 -> no_data w0 /\ req_sess (sk w0) = true /\ expired w = false).
+  { intros H. destruct HI as ((_ & _ & _ & _ & T5 & _) & _ & _ & HD).
+    split; [apply HD, H|]. split; [apply T5, H|]. unfold expired. rewrite H. reflexivity. }
+  destruct Ht as [Ht|Ht]; [|destruct (H0 Ht) as (A & B & ->); auto].
+  destruct Hg as [Hg|Hg]; [rewrite Hg in Ht; destruct (H0 Ht) as (A & B & ->); auto|].
+  destruct (Z.eq_dec (last_update (sk w)) 0) as [Hz|Hz]; [destruct (H0 Hz) as (A & B & ->); auto|].
+  assert (Ex : expired w = true) by (apply expired_iff; split; [exact Hz|rewrite Ht; exact Hg]).
+  rewrite Ex. unfold purged, removed, no_data, with_sk.
+  cbn [sk pfx keys req_sess upd_resetting upd_last upd_serial upd_req]. auto using own_oth_p, own_oth_k.
+Qed.
+
+(* with a session requested the connection goes through RESET, i.e. restarts with a Reset Query *)
+Lemma connect_rest_reset w r : opens w = true :: r -> req_sess (sk w) = true -> st (sk w) = c_RTR_CONNECTING ->
+  exists w', connect_rest w = Ok tt w' /\ st (sk w') = c_RTR_RESET /\
+             out w' = TState c_RTR_RESET :: TOpen true (now w) :: out w /\ sends w' = sends w.
+Proof.
+  intros Ho Hq Hst. unfold connect_rest, tr_open. unfold bind at 1. rewrite Ho. cbn [negb].
+  unfold bind at 1, get_sk. cbn [sk]. rewrite Hq. rewrite change_state_eq'. unfold state_changed. cbn [sk].
+  rewrite Hst. const_dec. eexists. split; [reflexivity|]. cbn [sk with_sk with_out st upd_st out sends]. auto.
+Qed.
+
+Definition reset_query_bytes (s : sock) : list byte := [version s mod 256; c_RESET_QUERY] ++ enc16 0 ++ enc32 8.
+
+Lemma tr_send_all_whole b w : sends w = [] -> (0 < List.length b <= 8192)%nat ->
+  tr_send_all b w = Ok (zlen b) (with_out w (TSend b :: out w)).
+Proof.
+  intros Hs Hl. unfold tr_send_all. destruct b as [|x b]; [cbn in Hl; lia|].
+  cbn [List.length tr_send_all_loop]. unfold bind at 1. unfold tr_send. rewrite Hs.
+  assert (Hn : Z.min (zlen (x :: b)) (Z.min 1000000 8192) = zlen (x :: b)) by (unfold zlen; lia).
+  cbn [Z.ltb Z.compare]. rewrite Hn.
+  assert (Hf : Z.to_nat (zlen (x :: b)) = List.length (x :: b)) by (unfold zlen; apply Nat2Z.id).
+  rewrite Hf, firstn_all.
+  assert (H1 : zlen (x :: b) <? 0 = false) by (apply Z.ltb_ge; unfold zlen; lia).
+  assert (H2 : zlen (x :: b) =? 0 = false) by (apply Z.eqb_neq; unfold zlen; cbn [List.length]; lia).
+  rewrite H1, H2, skipn_all. destruct (List.length b); reflexivity.
+Qed.
+
+Theorem reset_sends_reset_query fuel w : st (sk w) = c_RTR_RESET -> sends w = [] ->
+  exists w', fsm_step fuel w = Ok tt w' /\ st (sk w') = c_RTR_SYNC /\
+             out w' = TState c_RTR_SYNC :: TSend (reset_query_bytes (sk w)) :: out w.
+Proof.
+  intros Hst Hs. unfold fsm_step. unfold bind at 1, get_sk. cbv zeta. rewrite Hst. const_dec.
+  unfold send_reset_query. unfold bind at 1. unfold bind at 1, get_sk. unfold send_pdu. unfold bind at 1, get_sk.
+  rewrite Hst. const_dec. unfold bind at 1.
+  fold (reset_query_bytes (sk w)).
+  rewrite (tr_send_all_whole (reset_query_bytes (sk w)) w Hs) by (cbn; lia).
+  unfold ret. cbn [zlen reset_query_bytes List.length app enc16 enc32 Z.of_nat Pos.of_succ_nat Pos.succ Z.gtb Z.compare Z.eqb].
+  rewrite change_state_eq'. unfold state_changed. cbn [sk with_out]. rewrite Hst. const_dec.
+  eexists. split; [reflexivity|]. cbn [sk st with_sk with_out upd_st out]. auto.
+Qed.
+
+(* ---------- C07_stop ---------- *)
+Theorem stop_purges w :
+  rtr_stop w = Ok tt (stopped w) /\
+  no_data (stopped w) /\ req_sess (sk (stopped w)) = true /\ serial (sk (stopped w)) = 0 /\
+  last_update (sk (stopped w)) = 0 /\ st (sk (stopped w)) = c_RTR_CLOSED /\
+  pfx (stopped w) = oth_p (pfx w) /\ keys (stopped w) = oth_k (keys w) /\
+  (exists pre, out (stopped w) = rev (removal_callbacks w) ++ pre ++ out w /\
+               Forall (fun t => match t with TPfx _ _ | TKey _ _ => False | _ => True end) pre).
+Proof.
+  split; [apply rtr_stop_eq'|]. pose proof (stopped_facts w) as H. cbv zeta in H.
+  destruct H as (A & B & C & D & S & P & Kk & _). repeat split; auto. apply stopped_out.
+Qed.
+
+(* ---------- a failed synchronisation keeps the timestamp (repair d3720d6) ---------- *)
+Theorem failed_sync_keeps_timestamp fuel w : Inv w ->
+  match rtr_sync fuel w with
+  | Ok r w' => r <> 0 -> last_update (sk w') = last_update (sk w) /\ Inv w'
+  | Exc _ w' => last_update (sk w') = last_update (sk w) /\ Inv w'
+  end.
+Proof.
+  intros HI. pose proof (rtr_sync_inv_spec fuel w HI) as H. unfold hoareE in H.
+  destruct (rtr_sync fuel w) as [r w'|e w'].
+  - destruct H as (HI' & _ & [(-> & _)|(_ & HL)]); [intros Hr; contradiction|auto].
+  - destruct H as [HI' HL]. auto.
 Qed.
